@@ -332,6 +332,32 @@ parse_sym(
     "cssutils.CSSParser(fetcher=lambda url: 1 / 0).parseString('@import \"i.css\";a{left:0}', href='http://e/x.css')",
 )
 parse_sym('parseString(@import,fetcher-None)', lambda cx: cssutils.CSSParser(fetcher=_f_none).parseString('@import "i.css";a{left:0}', href='http://e/x.css'))
+
+
+def _reentrant(raising):
+    """a fetcher that uses the very parser that is parsing (e.g. to normalise the imported sheet): parse calls nest on one object"""
+    p = cssutils.CSSParser(raiseExceptions=raising)
+
+    def fetch(url):
+        inner = p.parseString('i{top:0}' if not raising else 'i{top:0}')
+        return None, inner.cssText.decode('utf-8')
+
+    p.setFetcher(fetch)
+    return p.parseString('@import "i.css";a{left:0}', href='http://e/x.css')
+
+
+def _reentrant_fail():
+    p = cssutils.CSSParser()
+
+    def fetch(url):
+        p.parseString(UNDEC, encoding='ascii')  # raises inside the nested call
+
+    p.setFetcher(fetch)
+    return p.parseString('@import "i.css";a{left:0}', href='http://e/x.css')
+
+
+parse_sym('parseString(@import,fetcher-reuses-the-parser)', lambda cx: _reentrant(False))
+parse_sym('parseString(@import,fetcher-reuses-the-parser,nested-call-raises)', lambda cx: _reentrant_fail())
 parse_sym('parseUrl(fetcher-raises)', lambda cx: cssutils.CSSParser(fetcher=_f_raise).parseUrl('http://e/x.css'))
 parse_sym('parseUrl(fetcher-None)', lambda cx: cssutils.CSSParser(fetcher=_f_none).parseUrl('http://e/x.css'))
 parse_sym('parseUrl(fetcher-empty)', lambda cx: cssutils.CSSParser(fetcher=_f_empty).parseUrl('http://e/x.css'))
